@@ -103,6 +103,9 @@ def make_cases(ctx, rng):
             c["refeed_seed"] = j + 17
         if c["keyw"] >= 3 and j % 8 != 7:
             c["share2"] = True
+        if j % 2 == 0 or c.get("share2"):
+            # file order: the PSMs of a spectrum are not contiguous (rows of different spectra interleave)
+            c["files"][0]["rows"] = [c["files"][0]["rows"][int(i)] for i in rng.permutation(len(c["files"][0]["rows"]))]
         if j % 4 == 3:
             rows2 = rows_from_shape(spec_of[: n // 2], rng, id0=1000)
             for r in rows2:
